@@ -17,6 +17,22 @@ func genOtl() {
 	for _, fn := range []string{"LookupList.encode", "LookupList.tryReorder"} {
 		facts["otl.intLits."+fn] = intLitsIn(f, fn)
 	}
+	// the OpenType script and language-system tags the library knows (keys of scriptBcp47 / langBcp47):
+	// otfToBCP47 succeeds exactly for these
+	for _, tbl := range []string{"scriptBcp47", "langBcp47"} {
+		var keys []string
+		l.p("/-- opentype/gtab/locale.go: keys of %s -/\ndef %sKeys : List String := [\n", tbl, tbl)
+		for i, e := range mapLit("opentype/gtab/locale.go", tbl) {
+			sep := ","
+			if i == 0 {
+				sep = " "
+			}
+			l.p("  %s%s\n", sep, leanStr(e.k))
+			keys = append(keys, e.k)
+		}
+		l.p("]\n\n")
+		facts["otl."+tbl+".count"] = len(keys)
+	}
 	facts["otl.intLits.coverage.encInfo"] = intLitsIn("opentype/coverage/coverage.go", "Table.encInfo")
 	facts["otl.intLits.classdef.getEncInfo"] = intLitsIn("opentype/classdef/classdef.go", "Table.getEncInfo")
 	l.write()
